@@ -108,7 +108,12 @@ impl<'a> SpannedDiagnosticFormatter<'a> {
         let mut out = String::new();
         let (start_byte, end_byte) = self.nlc().span_line_bytes(span);
         // Produce an underline underneath a span which may cover multiple lines, and a message on the last line.
-        let mut source_lines = self.src[start_byte..end_byte].lines().peekable();
+        // `lines()` yields nothing for an empty line: it still has to be shown.
+        let region = &self.src[start_byte..end_byte];
+        let mut source_lines = region
+            .lines()
+            .chain(region.is_empty().then_some(""))
+            .peekable();
         while let Some(source_line) = source_lines.next() {
             let (line_start_byte, _) = self.nlc().span_line_bytes(span);
             let span_offset_from_start = span.start() - line_start_byte;
@@ -117,7 +122,7 @@ impl<'a> SpannedDiagnosticFormatter<'a> {
             let underline_span = Span::new(
                 span.start(),
                 span.end()
-                    .min(span.start() + (source_line.len() - span_offset_from_start)),
+                    .min(span.start() + source_line.len().saturating_sub(span_offset_from_start)),
             );
             let (line_num, _) = self
                 .nlc()
